@@ -96,8 +96,52 @@ def coq_makefile():
         sh("coq_makefile -f _CoqProject -o Makefile", cwd=COQ, check=True)
 
 
+def gen_hash():
+    h = hashlib.sha256()
+    d = os.path.join(COQ, "Generated")
+    for f in sorted(os.listdir(d)):
+        if f.endswith(".v"):
+            h.update(f.encode())
+            h.update(open(os.path.join(d, f), "rb").read())
+    return h.hexdigest()[:16]
+
+
+def vo_cache_switch():
+    """Compiled files are cached per content of Generated/*.v, so that a changed table (and its later revert) does not
+    force two full rebuilds. The cache holds copies of every .vo/.glob and of Generated/*.v with their mtimes."""
+    cur = gen_hash()
+    tag = os.path.join(COQ, ".gen_hash")
+    old = open(tag).read().strip() if os.path.exists(tag) else None
+    if old == cur:
+        return
+    cache = os.path.join(WORK, "vo_cache")
+    os.makedirs(cache, exist_ok=True)
+    if old:
+        dst = os.path.join(cache, old)
+        if not os.path.isdir(dst):
+            # Generated/*.v in the tree now have the NEW content; the old-content .vo files are still valid for `old`
+            sh("mkdir -p %s && rsync -a --include='*/' --include='*.vo' --include='*.glob' --include='*.vok' --include='*.vos' --include='.*.aux' --exclude='*' ./ %s/" % (dst, dst), cwd=COQ)
+            # keep the old generated sources (from the cached copy made at the previous switch, if any)
+    src = os.path.join(cache, cur)
+    if os.path.isdir(src):
+        sh("rsync -a %s/ ./" % src, cwd=COQ)
+        # make the generated sources look older than the restored objects
+        sh("find Generated -name '*.v' -exec touch -d '2000-01-01' {} +", cwd=COQ)
+        log("  [vo cache: restored objects for generated tables %s]" % cur)
+    with open(tag, "w") as f:
+        f.write(cur)
+    # keep the cache small
+    ents = sorted((os.path.getmtime(os.path.join(cache, e)), e) for e in os.listdir(cache))
+    for _, e in ents[:-4]:
+        sh("rm -rf %s" % os.path.join(cache, e))
+
+
 def coq_make(target, timeout=2400):
     coq_makefile()
+    try:
+        vo_cache_switch()
+    except Exception as e:  # noqa
+        log("  [vo cache disabled: %s]" % e)
     rc, out, dt = sh("make -j%d %s 2>&1" % (NPROC, target), cwd=COQ, timeout=timeout)
     return rc == 0, out, dt
 
